@@ -137,6 +137,23 @@ func fieldAccessesShallow(fn *ssa.Function) []fieldAccess {
 			// the address of a field handed to a callee (zero.Bytea64(&a.hash), rand.Read(a.salt[:])):
 			// the callee may write through it
 			for _, a := range cc.Args {
+				// a slice of an array field handed to a callee (`f(x.buf[:])`): the callee may fill it
+				if sl, isSl := a.(*ssa.Slice); isSl {
+					if fa, isFA := sl.X.(*ssa.FieldAddr); isFA && !isSyncType(fa.Type()) {
+						if t, f, b, ok := fieldOfAddr(fa); ok {
+							if g := cc.StaticCallee(); g != nil && len(g.Blocks) > 0 && strings.HasPrefix(pkgOf(g), repoMod) && !paramMayBeWritten(g, argIndexOf(cc, sl), 2) {
+								continue
+							}
+							if bi, isB := cc.Value.(*ssa.Builtin); isB && (bi.Name() == "len" || bi.Name() == "cap" || bi.Name() == "append" || bi.Name() == "copy") {
+								continue // builtins are classified below (copy into) or only read
+							}
+							if readOnlyOfArgs(cc) {
+								continue
+							}
+							add(in, t, f, b, "addrarg", true)
+						}
+					}
+				}
 				if fa, ok := a.(*ssa.FieldAddr); ok {
 					if isSyncType(fa.Type()) {
 						continue
@@ -310,4 +327,36 @@ func paramMayBeWritten(g *ssa.Function, idx int, depth int) bool {
 		}
 	})
 	return written
+}
+
+
+// readOnlyOfArgs: callees known not to write the byte slices they are given: comparisons, digests,
+// encoders, formatters, and Write-shaped methods (io.Writer's contract: Write must not modify the
+// slice data); everything else outside the repository is assumed to write.
+func readOnlyOfArgs(cc *ssa.CallCommon) bool {
+	if cc.IsInvoke() {
+		switch cc.Method.Name() {
+		case "Write", "WriteAt", "WriteString":
+			return true
+		}
+		return false
+	}
+	f := cc.StaticCallee()
+	if f == nil {
+		return false
+	}
+	id := f.String()
+	switch {
+	case strings.HasPrefix(id, "bytes.Equal"), strings.HasPrefix(id, "bytes.Compare"), strings.HasPrefix(id, "bytes.HasPrefix"), strings.HasPrefix(id, "bytes.HasSuffix"), strings.HasPrefix(id, "bytes.Contains"), strings.HasPrefix(id, "bytes.Index"):
+		return true
+	case strings.HasPrefix(id, "crypto/sha512.Sum"), strings.HasPrefix(id, "crypto/sha256.Sum"), id == "crypto/subtle.ConstantTimeCompare":
+		return true
+	case strings.HasPrefix(id, "encoding/hex.Encode"), strings.HasPrefix(id, "fmt."):
+		return true
+	case strings.HasPrefix(id, "(encoding/binary.") && strings.Contains(id, ").Uint"):
+		return true
+	case strings.HasSuffix(id, ").Write") || strings.HasSuffix(id, ").WriteAt"):
+		return true
+	}
+	return false
 }
